@@ -22,7 +22,7 @@ func init() {
 		Doc: "TagRPC < InHeader < Begin < handler < End by dominance on the stats projection; later events receive the context TagRPC returned",
 		Run: ruleStatsOrder})
 	register(&Rule{Name: "STATS-PURE", Floor: 4,
-		Doc: "code that runs only when a stats handler is installed cannot change or crash the RPC: no return, no response header/body write, no unjustified slicing inside stats-guarded regions",
+		Doc: "code that runs only when a stats handler is installed cannot change or crash the RPC: no return, no response header/body write, no unjustified slicing inside stats-guarded regions; a closure that exists only with a stats handler assigns nothing the function reads outside stats-only code",
 		Run: ruleStatsPure})
 	register(&Rule{Name: "IC-ONCE", Floor: 4,
 		Doc: "in each handler closure every path to a non-error return contains exactly one interceptor-mediated invocation (opts.stream, opts.unary, or a generated handler given opts.unaryInterceptor)",
